@@ -138,13 +138,16 @@ Definition rview (n : nat) (st : rstate) : list nat :=
   :: (match apc (cells st (registered st)) with AIdle => 0 | AMidResume => 1 end)
   :: map (fun c => code_pc (view_pc (cells st (holds st c)) c)) (seq 0 n).
 
-Fixpoint rtrace_from (n : nat) (st : rstate) (l : list rev) : list (list nat) :=
+Fixpoint rtrace_from_gen (resolve : bool) (n : nat) (st : rstate) (l : list rev) : list (list nat) :=
   match l with
   | [] => []
-  | e :: r => match rstep st e with
-              | Some st' => rview n st' :: rtrace_from n st' r
+  | e :: r => match rstep_gen resolve st e with
+              | Some st' => rview n st' :: rtrace_from_gen resolve n st' r
               | None => [[]]
               end
   end.
 
-Definition rtrace_codes (n : nat) (l : list rev) : list (list nat) := rtrace_from n rinit l.
+Definition rtrace_codes (n : nat) (l : list rev) : list (list nat) := rtrace_from_gen true n rinit l.
+
+(** The same for the mutant that waits on the pool object resolved earlier (self-test of props/c16wire.py). *)
+Definition rtrace_codes_stale (n : nat) (l : list rev) : list (list nat) := rtrace_from_gen false n rinit l.
